@@ -126,6 +126,7 @@ func TestC07(t *testing.T) {
 			addCollidingDefs(rt, c, f, "array")
 		}
 		cs := caseOf(baseConfig(), []string{f.RelPath}, f)
+		countShapes(c, f, cs.Config)
 		jobs := buildJobs(rt, c, f.Root, progRoot, plan, o, cs)
 		c.Sample(sampleOf(cs, jobs))
 		return &RunCase{Case: cs, Jobs: jobs, Model: modelIfSingle(cs, f)}
